@@ -86,7 +86,7 @@ manifest = {
     ],
     "checks": checks,
     "not_applicable": na,
-    "notes": "Technique family: static analysis only. Every check decides a named structural clause (a necessary condition) of its property from /repo's current source; the behavioural remainder is stated as not decided in DESIGN.md and in each evidence file.",
+    "notes": "Technique family: static analysis only. Every check decides a named structural clause (a necessary condition) of its property from /repo's current source; the behavioural remainder is stated as not decided in DESIGN.md and in each evidence file. Known findings: /verif/known_findings.json (status `known` entries are printed as KNOWN-FINDING lines and keyed by the exact violation key; `fixed: <commit>` entries record repaired defects and suppress nothing). Independently seeded regressions with demonstrations: /verif/seeded/<id>/ (none of them is applied in /repo; `git -C /repo apply seeded/<id>/patch.diff` to try one). Exit codes of ./check: 0 holds, 1 violation, 2 tree cannot be analysed / checker self-validation failed, 4 internal checker error.",
 }
 json.dump(manifest, open(os.path.join(HERE, "MANIFEST.json"), "w"), indent=1)
 print("claimed", len(checks), "not_applicable", len(na))
